@@ -39,6 +39,30 @@ pub fn obj_uri(i: usize) -> String {
 }
 pub fn candidate_uri(k: usize) -> String { format!("rsync://{HOST}/m/o{k}c.bin") }
 
+/// Names for objects 2 and 3 that the archive at `path` puts into the
+/// bucket of object 0 (read from the file: the key is random per archive).
+pub fn resolve_colliders(path: &std::path::Path) -> Result<(), (String, String)> {
+    use std::hash::Hasher;
+    let bytes = std::fs::read(path).map_err(|e| ("harness".to_string(), format!("no archive to read the hash key from: {e}")))?;
+    if bytes.len() < 6 + 16 + 8 { return Err(("harness".into(), "archive too short".into())) }
+    let key: [u8; 16] = bytes[6..22].try_into().unwrap();
+    let buckets = usize::from_ne_bytes(bytes[22..30].try_into().unwrap()) as u64;
+    let bucket = |name: &str| {
+        let mut h = siphasher::sip::SipHasher24::new_with_key(&key);
+        h.write(name.as_bytes());
+        h.finish() % buckets
+    };
+    let want = bucket(&obj_uri(0));
+    let found: Vec<String> = (0..200_000).map(candidate_uri).filter(|c| bucket(c) == want).take(2).collect();
+    if found.len() < 2 { return Err(("harness".into(), "no colliding names found".into())) }
+    NAME_OVERRIDE.with(|n| {
+        let mut n = n.borrow_mut();
+        n.insert(2, found[0].clone());
+        n.insert(3, found[1].clone());
+    });
+    Ok(())
+}
+
 /// Contents 0 and 1 occupy one archive page, content 2 three.
 pub const CONTENTS: [&[u8]; 3] = [b"content-x", b"content-y-longer", &[b'z'; 600]];
 
